@@ -798,6 +798,8 @@ class SgzReader(object):
             A single trace, decompressed
         """
         if self.is_2d:
+            if not 0 <= index < self.tracecount:
+                raise IndexError(self.range_error.format(index, 0, self.tracecount - 1))
             min_trace = self.blockshape[1] * (index // self.blockshape[1])
 
             if self.blockshape[1] == 4:
